@@ -1104,6 +1104,39 @@ func (g *G) genDelimitedVaryCase(p *Profile, id string) *Case {
 }
 
 // genFor: the generator of case number i of a profile (targeted shapes are mixed into some profiles)
+// genBgFailureCase: a stale response inside its stale-while-revalidate window is handed out and validated in the background;
+// the validation fails with a 5xx that is itself storable (explicit freshness) while stale-if-error — on the stored response
+// or on the request — covers the failure; later requests inside and outside the stale-while-revalidate window follow.
+func (g *G) genBgFailureCase(p *Profile, id string) *Case {
+	c := &Case{ID: id, Stream: "M", SWRTimeout: p.SWRTimeouts[g.intn(len(p.SWRTimeouts))]}
+	res := g.intn(2)
+	storedSIE := g.chance(0.7)
+	cc := "max-age=1, stale-while-revalidate=30"
+	if storedSIE {
+		cc += ", stale-if-error=" + g.pick("600", "600", "3600", "20")
+	}
+	first := tRep(0, 200, cc, Hdr{"ETag", []string{`"v1"`}})
+	var h []Hdr
+	if !storedSIE || g.chance(0.3) {
+		h = []Hdr{{"Cache-Control", []string{"stale-if-error=" + g.pick("600", "30", "5")}}}
+	}
+	c.Reqs = []Req{{Gap: time.Second, Method: "GET", URL: g.urlFor(res, false)},
+		{Gap: g.pickD(5*time.Second, 3*time.Second, 20*time.Second), Method: "GET", URL: g.urlFor(res, false), Hdrs: h},
+		{Gap: g.pickD(2*time.Second, time.Second), Method: "GET", URL: g.urlFor(res, false), Hdrs: h},
+		{Gap: g.pickD(40*time.Second, 10*time.Second, 700*time.Second), Method: "GET", URL: g.urlFor(res, false), Hdrs: h},
+		{Gap: time.Second, Method: "GET", URL: g.urlFor(res, false)}}
+	c.Script = []ScriptEntry{{Delay: g.pickD(0, 300*time.Millisecond), Plain: first, Cond: first}}
+	for i := 1; i < 8; i++ {
+		status := g.pickI(500, 502, 503, 504, 503, 501, 404)
+		if i >= 4 && g.chance(0.5) {
+			status = 200
+		}
+		r := tRep(i, status, g.pick("max-age=60", "public", "max-age=60, must-revalidate", "", "no-store", "max-age=0"), Hdr{"ETag", []string{`"v2"`}})
+		c.Script = append(c.Script, ScriptEntry{Delay: g.pickD(0, 200*time.Millisecond), Plain: r, Cond: r})
+	}
+	return c
+}
+
 func (g *G) genFor(p *Profile, id string, i int) *Case {
 	g.noVaryCC = p.Name == "spell"
 	switch {
@@ -1119,6 +1152,8 @@ func (g *G) genFor(p *Profile, id string, i int) *Case {
 		return g.genDelimitedVaryCase(p, id)
 	case (p.Name == "fresh" || p.Name == "age") && i%25 == 9:
 		return g.genSaturatedAgeCase(p, id)
+	case p.Name == "sie" && i%8 == 5:
+		return g.genBgFailureCase(p, id)
 	}
 	return g.genCase(p, id)
 }
